@@ -73,6 +73,13 @@ def generate(rng, tier, index):
             r["plain"] = hx(struct.pack(">I", rng.choice([0, 0xBEEE, 0xBEEF0000, 0xEFBE, 0x0001BEEF, 0xDEADBEEF, 0xFFFFBEEF,
                                                           0x8000BEEF, (rng.getrandbits(16) or 1) << 16 | 0xBEEF, rng.getrandbits(32)]))
                             + bytes(rng.getrandbits(8) for _ in range(rng.choice([0, 4, 55, 56, 80, rng.randint(0, lim + 55)]))))
+            if rng.random() < 0.5:
+                # an otherwise valid metadata structure whose magic alone is wrong (often only in its upper half)
+                info = bytes(rng.getrandbits(8) for _ in range(rng.randint(0, 20)))
+                valid = rc.pack_metadata({"aes_rand": bytes(16), "ansi_cp": 1252, "oem_cp": 437, "bid": 2 * rng.getrandbits(30),
+                                          "pid": 4, "port": 0, "flag": 0, "ver_major": 6, "ver_minor": 1, "ver_build": 7601,
+                                          "ptr_x64": 0, "ptr_gmh": 0, "ptr_gpa": 0, "ip": 1, "info": info})
+                r["plain"] = r["plain"][:8] + hx(valid[4:])
             if unhx(r["plain"])[:4] == b"\x00\x00\xbe\xef":
                 r["plain"] = "00000000" + r["plain"][8:]
         if k == "short":
